@@ -21,6 +21,9 @@ type c07Case struct {
 	// ParentConfig, when set, is put on the global registry *before* filtering: the
 	// filtered registry must inherit it, so both runs see the same configuration.
 	ParentConfig *string `json:"parent_config,omitempty"`
+	// DirtyConfig, when set: before the filtered registry is built, an equal Filter call is made and its
+	// result is given this configuration (a history of the parent registry, not of the registry used)
+	DirtyConfig *string `json:"dirty_config,omitempty"`
 }
 
 func lintObj(k gen.Kind, der []byte) (func(r lint.Registry) *zlint.ResultSet, bool) {
@@ -52,6 +55,18 @@ func judgeC07Inner(rec *stats.Rec, c c07Case) (string, string) {
 			return "", ""
 		}
 		g.SetConfiguration(pc)
+	}
+	if c.DirtyConfig != nil && len(c.Filters) > 0 && !c.Filters[0].Empty() {
+		// an earlier caller filtered with the very same options and reconfigured ITS registry: that must
+		// not reach the registry this caller is about to obtain
+		if r0, _, restore0, err0 := engine.BuildRegistry(c.Case); err0 == nil && r0 != lint.GlobalRegistry() {
+			if dc, err := lint.NewConfigFromString(*c.DirtyConfig); err == nil {
+				r0.SetConfiguration(dc)
+			}
+			if c.ParentConfig == nil {
+				restore0()
+			}
+		}
 	}
 	reg, _, restore, err := engine.BuildRegistry(c.Case)
 	if c.ParentConfig == nil {
@@ -218,6 +233,11 @@ func TestC07(t *testing.T) {
 		}
 		oc.Filters = []engine.FilterSpec{f}
 		c := c07Case{Case: oc, SameObject: rapid.IntRange(0, 2).Draw(rt, "same"), ParentConfig: &doc}
+		if rapid.IntRange(0, 2).Draw(rt, "dirty") == 0 {
+			// the parent keeps its default configuration; an earlier, equal Filter result was reconfigured
+			c.ParentConfig = nil
+			c.DirtyConfig = &doc
+		}
 		rec.Eval()
 		rec.Class("inherited_config")
 		if sig, msg := judgeC07(rec, c); msg != "" {
